@@ -1,7 +1,9 @@
-(** C09 for client requests, part 6: witnesses.  (1) The well-formedness hypotheses [op_ok] cannot be
-    dropped: a task graph whose task names a request index outside the request list of the message
-    panics the server (sites 223 / 224 = the assertion / the index in the real [validate_submit] /
-    [build_tasks_graph]), and so does an array with a duplicate explicit id (site 220).  (2) The
+(** C09 for client requests, part 6: witnesses.  (1) A task graph whose task names a request index
+    outside the request list of the message reaches sites 223 / 224 of [handle_submit_graph] (= the
+    assertion / the index in the real [validate_submit] / [build_tasks_graph]: finding F27, the real
+    server panicked); since the repair the request is refused before that.  The hypothesis [op_ok]
+    on arrays cannot be dropped in the model: a duplicate explicit id reaches site 220 (the real
+    [IntArray] is a set, no message contains one).  (2) The
     theorem is not vacuous: a reachable state with assigned and prefilled tasks satisfies all its
     hypotheses, and the cancel request is processed there. *)
 From HQ Require Import Base.Prelude Cluster.Types Cluster.Core Cluster.Reactor Cluster.Worker Cluster.Server Cluster.Sys Cluster.Monitors Cluster.RejHyp Cluster.BijFinal Cluster.InvProcsDef Cluster.InvBundle Cluster.NoPanicC1 Cluster.NoPanicC5.
@@ -12,14 +14,16 @@ Definition rq1 : rqdef := mkRq 0 [1; 0; 0].
 
 (** A graph task with local request index 0 and an empty request list: new job. *)
 Example malformed_graph_panics_new_job :
-  step (init_sys 0 2) (OpSubmitG None [] [(0, 0, 0%Z, CUnl, [])] None) = Panic 224.
-Proof. vm_compute. reflexivity. Qed.
+  handle_submit_graph (init_sys 0 2, []) None [] [(0, 0, 0%Z, CUnl, [])] None = Panic 224 /\
+  step (init_sys 0 2) (OpSubmitG None [] [(0, 0, 0%Z, CUnl, [])] None) = Ok (init_sys 0 2, [OResp (RSubmitErr 5 0)]).
+Proof. split; vm_compute; reflexivity. Qed.
 
 (** ... into an open job: the assertion of [validate_submit]. *)
 Example malformed_graph_panics_open_job :
   exists s outs, run (init_sys 0 2) [OpOpen None] = Ok (s, outs) /\
-    step s (OpSubmitG (Some 1) [] [(0, 0, 0%Z, CUnl, [])] None) = Panic 223.
-Proof. eexists. eexists. split; vm_compute; reflexivity. Qed.
+    handle_submit_graph (s, []) (Some 1) [] [(0, 0, 0%Z, CUnl, [])] None = Panic 223 /\
+    step s (OpSubmitG (Some 1) [] [(0, 0, 0%Z, CUnl, [])] None) = Ok (s, [OResp (RSubmitErr 5 0)]).
+Proof. eexists. eexists. split; [|split]; vm_compute; reflexivity. Qed.
 
 (** A duplicate explicit id. *)
 Example duplicate_id_panics :
